@@ -75,9 +75,14 @@ let log_s l =
 let handle_line line =
   match split_ws line with
   | tr :: cfg :: hx :: _ ->
+    let cfg, rs =
+      (match String.index_opt cfg '+' with
+       | Some i when i + 2 <= String.length cfg && cfg.[i + 1] = 'r' ->
+         (String.sub cfg 0 i, String.sub cfg (i + 2) (String.length cfg - i - 2))
+       | _ -> (cfg, "10485760")) in
     (match batch_cfg cfg, (match tr with "http" | "httpl" | "httpc" -> Some Http | "ws" | "wsb" -> Some Ws | _ -> None) with
      | Some bc, Some t ->
-       let c = { sc_max_response = n_of_string "10485760"; sc_batch = bc } in
+       let c = { sc_max_response = n_of_string rs; sc_batch = bc } in
        let b = bytes_of_hex (if hx = "-" then "" else hx) in
        let o = handle reg h t c b in
        let fr = o.o_frames in
